@@ -184,3 +184,20 @@ func tail(s string, n int) string {
 	}
 	return s
 }
+
+// ServeIfWorker2 is ServeIfWorker with a first-chance handler for cases of another shape.
+func ServeIfWorker2(t *testing.T, first func(in json.RawMessage) (any, bool)) {
+	if !vlib.IsWorker() {
+		return
+	}
+	vlib.Serve(func(in json.RawMessage) any {
+		if out, ok := first(in); ok {
+			return out
+		}
+		var c bfsCase
+		if err := json.Unmarshal(in, &c); err != nil {
+			return Result{Harness: "bad case: " + err.Error()}
+		}
+		return Run(t, c.Cfg, c.History)
+	})
+}
